@@ -58,7 +58,7 @@ ASSUMPTIONS = [
     "density is not differentiable there; ties among sampling times themselves (constants) are generated",
     "parameters are interior points: probabilities in [1e-3, 0.999], rho / s entries that are exactly 0 (structural zeros of the skyline) are "
     "not differentiated, growth rates |g| >= 1e-3",
-    "rate matrices whose symmetrised form has a repeated eigenvalue (relative gap < 1e-7: equal exchangeabilities, HKY/K80 with equal "
+    "rate matrices whose symmetrised form has a repeated or nearly repeated eigenvalue (relative gap < 1e-4: equal exchangeabilities, HKY/K80 with equal "
     "frequencies, kappa = 1, ...) are the subject of the deterministic sub-check degenerate_start (known finding) and are classified by the tag "
     "repeated_eig in the generated search; the spectrum is computed by numpy from the documented rate matrix (from q() for MG94)",
     "tolerance 1e-6 max(1,|g|) + error estimate of the Richardson tableau (2 x last correction + (3 x measured evaluation noise + 8 eps |f|) / h; "
@@ -668,6 +668,9 @@ def prepare_like(c):
 SUBST_CLS = {"JC69": "JC69", "HKY": "HKY", "GTR": "GTR", "GeneralJC69": "GeneralJC69", "GeneralSym": "GeneralSymmetricSubstitutionModel",
              "GeneralNonSym": "GeneralNonSymmetricSubstitutionModel", "LG": "LG", "WAG": "WAG", "MG94": "MG94"}
 EIGH = {"HKY", "GTR", "GeneralSym", "MG94"}
+# relative eigenvalue gap below which a case is classified repeated_eig: the backward pass of eigh divides by the gap, at 1e-6 the
+# gradient of the frequencies was seen to be off by 4e-6 relative (three finite-difference sequences agreeing to 1e-9)
+EIG_GAP = 1e-4
 
 
 def min_rel_gap(Q, pi):
@@ -718,7 +721,7 @@ def like_tags(c, gap=None):
     if gap is None and name in ("HKY", "GTR", "GeneralSym"):
         Q, pi = OL.q_model(m)
         gap = min_rel_gap(Q, pi)
-    rep = bool(name in EIGH and gap is not None and gap < 1e-7)
+    rep = bool(name in EIGH and gap is not None and gap < EIG_GAP)
     return {"cls": "TreeLikelihoodModel", "subst": name, "site": c["site"]["kind"], "tree": c["tree"]["kind"], "rescale": bool(c.get("rescale")),
             "tip": c["tip"], "decomposition": "eigh" if name in EIGH else "other", "repeated_eig": rep}
 
@@ -1473,12 +1476,12 @@ def _pre(cls_of):
 
 def subchecks(tier):
     return [
-        Sub("likelihood", body_like, strategy=like_cases, quick=600, thorough=20000, pretags=like_pretags),
-        Sub("coalescent", body_coal, strategy=coal_cases, quick=400, thorough=12000, pretags=lambda c: {"cls": c08.CLS[c["p"]["model"]]}),
-        Sub("skyline", body_bdsk, strategy=bdsk_cases, quick=200, thorough=6000, pretags=_pre(lambda c: "BDSKModel")),
+        Sub("likelihood", body_like, strategy=like_cases, quick=600, thorough=16000, pretags=like_pretags),
+        Sub("coalescent", body_coal, strategy=coal_cases, quick=400, thorough=10000, pretags=lambda c: {"cls": c08.CLS[c["p"]["model"]]}),
+        Sub("skyline", body_bdsk, strategy=bdsk_cases, quick=200, thorough=5000, pretags=_pre(lambda c: "BDSKModel")),
         Sub("gmrf", body_gmrf, strategy=gmrf_cases, quick=300, thorough=8000, pretags=_pre(lambda c: c["what"])),
         Sub("priors", body_priors, strategy=prior_cases, quick=240, thorough=6000, pretags=_pre(lambda c: c["what"])),
         Sub("jacobian", body_jacobian, strategy=jacobian_cases, quick=300, thorough=8000, pretags=_pre(lambda c: c["what"])),
-        Sub("joint", body_joint, strategy=joint_cases, quick=200, thorough=6000, pretags=lambda c: dict(like_pretags(c), cls="JointDistributionModel")),
+        Sub("joint", body_joint, strategy=joint_cases, quick=200, thorough=5000, pretags=lambda c: dict(like_pretags(c), cls="JointDistributionModel")),
         Sub("degenerate_start", body_degenerate, enumerate=degenerate_cases, exhaustive=True, pretags=degenerate_tags),
     ]
